@@ -3,3 +3,4 @@ INVARIANT TotalsEqualTracked
 INVARIANT TotalsEqualRecomputed
 INVARIANT AnnotationsSumToTotals
 INVARIANT LineShownCoveredIffCovered
+INVARIANT XmlHitsFollowAnnotations
